@@ -1,7 +1,7 @@
 (** C09 — basis vectors are orthonormal and compression is an isometry. *)
 From Coq Require Import List Arith Reals Lra.
 Import ListNotations.
-From SymfcV Require Import Tuples Group Concrete IPS EigModel.
+From SymfcV Require Import Tuples Group Concrete IPS EigModel LabelMatrix.
 Open Scope R_scope.
 
 (** C_trans: every translation class has exactly n_lp distinct members (free action), each carrying the
@@ -40,3 +40,16 @@ Theorem c09_block_assembly (W W1 W2 : IPS) (J1 : W1 -> W) (J1t : W -> W1) (J2 : 
   (forall x y, M (vadd x y) = vadd (M x) (M y)) ->
   forall v, M v = v <-> M1 (J1t v) = J1t v /\ M2 (J2t v) = J2t v.
 Proof. exact (block_unit_eigenvectors W W1 W2 J1 J1t J2 J2t M M1 M2). Qed.
+
+(** c_pt (labels = orbit of the element under index permutations and translations, None = eliminated by the
+    cutoff) and C_trans (labels = translation class) are built from a labelling of their rows with entries
+    1/sqrt(size of the label's fibre): such a matrix has orthonormal columns, whatever the row set and the labelling. *)
+Theorem c09_label_matrix_columns_orthogonal (A : Type) (lab : A -> option nat) (E : list A) c c' :
+  c <> c' -> rsuml A (fun e => entry A lab E e c * entry A lab E e c') E = 0.
+Proof. exact (columns_orthogonal A lab E c c'). Qed.
+Print Assumptions c09_label_matrix_columns_orthogonal.
+
+Theorem c09_label_matrix_unit_columns (A : Type) (lab : A -> option nat) (E : list A) c :
+  (0 < count A lab E c)%nat -> rsuml A (fun e => entry A lab E e c * entry A lab E e c) E = 1.
+Proof. exact (column_unit_norm A lab E c). Qed.
+Print Assumptions c09_label_matrix_unit_columns.
